@@ -155,8 +155,8 @@ Qed.
 (* ---------------------------------------------------------------- the grid *)
 Definition grid_pos (g : vgrid) : Prop := 0 < g_ny g /\ 0 < g_nz g.
 
-Lemma make_grid_pos cell c xyz : grid_pos (make_grid cell c xyz).
-Proof. unfold grid_pos, make_grid, nvox_per, nvox_open. destruct cell; cbn [g_ny g_nz]; lia. Qed.
+Lemma make_grid_pos fl cell c xyz : grid_pos (make_grid_gen fl cell c xyz).
+Proof. unfold grid_pos, make_grid_gen, nvox_per, nvox_open. destruct cell; cbn [g_ny g_nz]; lia. Qed.
 
 Definition wy_of (g : vgrid) (y : Z) : Z := if g_per g then wrap1 (g_ny g) y else y.
 Definition wz_of (g : vgrid) (z : Z) : Z := if g_per g then wrap1 (g_nz g) z else z.
@@ -263,9 +263,9 @@ Proof.
   rewrite seq_nth by exact Hi. unfold pos. cbn [plus]. f_equal. apply nth_indep. exact Hi.
 Qed.
 
-Definition the_grid (cell : option box) (c : Z) (xyz : list vec) : vgrid := make_grid cell c xyz.
-Definition the_bins (cell : option box) (c : Z) (xyz : list vec) : Z -> Z -> list entry :=
-  bin_atoms (the_grid cell c xyz) (atoms_of xyz).
+Definition the_grid (fl : bool) (cell : option box) (c : Z) (xyz : list vec) : vgrid := make_grid_gen fl cell c xyz.
+Definition the_bins (fl : bool) (cell : option box) (c : Z) (xyz : list vec) : Z -> Z -> list entry :=
+  bin_atoms (the_grid fl cell c xyz) (atoms_of xyz).
 
 Lemma half_list_ext g c bins bins' i p : (forall wy wz, bins wy wz = bins' wy wz) ->
   half_list g c bins i p = half_list g c bins' i p.
@@ -274,11 +274,11 @@ Proof.
   now rewrite H.
 Qed.
 
-Lemma nth_nlist_half cell c xyz i : (i < length xyz)%nat ->
-  nth i (nlist_half cell c xyz) [] =
-  half_list (the_grid cell c xyz) c (the_bins cell c xyz) i (pos xyz i).
+Lemma nth_nlist_half fl cell c xyz i : (i < length xyz)%nat ->
+  nth i (nlist_half_gen fl cell c xyz) [] =
+  half_list (the_grid fl cell c xyz) c (the_bins fl cell c xyz) i (pos xyz i).
 Proof.
-  intros Hi. unfold nlist_half. cbv zeta.
+  intros Hi. unfold nlist_half_gen. cbv zeta.
   set (f := fun e : entry => half_list _ _ _ (fst e) (snd e)).
   assert (E : [] = f (0%nat, (0, 0, 0)) \/ True) by now right.
   rewrite (nth_indep _ [] (f (0%nat, (0, 0, 0)))) by (rewrite map_length, atoms_of_length; exact Hi).
@@ -286,21 +286,21 @@ Proof.
   apply half_list_ext. intros wy wz. apply bin_lookup_table.
 Qed.
 
-Lemma nlist_half_length cell c xyz : length (nlist_half cell c xyz) = length xyz.
-Proof. unfold nlist_half. cbv zeta. now rewrite map_length, atoms_of_length. Qed.
+Lemma nlist_half_length fl cell c xyz : length (nlist_half_gen fl cell c xyz) = length xyz.
+Proof. unfold nlist_half_gen. cbv zeta. now rewrite map_length, atoms_of_length. Qed.
 
-Lemma in_nlist_half cell c xyz i j :
-  In j (nth i (nlist_half cell c xyz) []) ->
-  (i < length xyz)%nat /\ In j (half_list (the_grid cell c xyz) c (the_bins cell c xyz) i (pos xyz i)).
+Lemma in_nlist_half fl cell c xyz i j :
+  In j (nth i (nlist_half_gen fl cell c xyz) []) ->
+  (i < length xyz)%nat /\ In j (half_list (the_grid fl cell c xyz) c (the_bins fl cell c xyz) i (pos xyz i)).
 Proof.
   intros H. destruct (Nat.lt_ge_cases i (length xyz)) as [Hi|Hi].
   - split; [exact Hi|]. now rewrite <- nth_nlist_half.
   - rewrite nth_overflow in H by (now rewrite nlist_half_length). destruct H.
 Qed.
 
-Lemma in_the_bins cell c xyz wy wz e :
-  In e (the_bins cell c xyz wy wz) <->
-  (fst e < length xyz)%nat /\ snd e = pos xyz (fst e) /\ vox_index (the_grid cell c xyz) (snd e) = (wy, wz).
+Lemma in_the_bins fl cell c xyz wy wz e :
+  In e (the_bins fl cell c xyz wy wz) <->
+  (fst e < length xyz)%nat /\ snd e = pos xyz (fst e) /\ vox_index (the_grid fl cell c xyz) (snd e) = (wy, wz).
 Proof.
   unfold the_bins, bin_atoms. rewrite filter_In. cbv zeta. destruct e as (j, q). rewrite in_atoms_of. cbn [fst snd].
   destruct (vox_index _ q) as (a, b). cbn [fst snd]. split.
@@ -321,8 +321,8 @@ Proof. reflexivity. Qed.
 Lemma vsub_zero d : vsub d (0, 0, 0) = d.
 Proof. destruct d as ((a, b), c). unfold vsub, vx, vy, vz; cbn. f_equal; [f_equal|]; ring. Qed.
 
-Lemma nlist_half_sound cell c xyz i j :
-  In j (nth i (nlist_half cell c xyz) []) ->
+Lemma nlist_half_sound fl cell c xyz i j :
+  In j (nth i (nlist_half_gen fl cell c xyz) []) ->
   (j < i)%nat /\ (i < length xyz)%nat /\ image_within cell c (pos xyz i) (pos xyz j).
 Proof.
   intros H. apply in_nlist_half in H. destruct H as (Hi & H).
@@ -351,14 +351,15 @@ Qed.
 Lemma ywindow_span g c vyi zz y y' : grid_pos g -> g_per g = true ->
   In y (ywindow g c vyi zz) -> In y' (ywindow g c vyi zz) -> Z.abs (y - y') < g_ny g.
 Proof.
-  intros (Hn & _) Hp. unfold ywindow. rewrite Hp. cbv zeta. rewrite !in_zrange. lia.
+  intros (Hn & _) Hp. unfold ywindow. rewrite Hp. cbv zeta.
+  destruct (g_fully g && g_tric g && (g_nz g <? 5)); rewrite !in_zrange; lia.
 Qed.
 
 Lemma NoDup_zwindow g c vzi : NoDup (zwindow g c vzi).
 Proof. unfold zwindow. cbv zeta. destruct (g_per g); apply NoDup_zrange. Qed.
 
 Lemma NoDup_ywindow g c vyi z : NoDup (ywindow g c vyi z).
-Proof. unfold ywindow. cbv zeta. destruct (g_per g); apply NoDup_zrange. Qed.
+Proof. unfold ywindow. cbv zeta. destruct (g_per g); [destruct (g_fully g && g_tric g && (g_nz g <? 5))|]; apply NoDup_zrange. Qed.
 
 Lemma wz_of_inj g c vzi z z' : grid_pos g ->
   In z (zwindow g c vzi) -> In z' (zwindow g c vzi) -> wz_of g z = wz_of g z' -> z = z'.
@@ -374,8 +375,8 @@ Proof.
   apply wrap1_inj; [apply Hg|]. now apply (ywindow_span g c vyi zz).
 Qed.
 
-Lemma the_bins_fst_inj cell c xyz wy wz wy' wz' e e' :
-  In e (the_bins cell c xyz wy wz) -> In e' (the_bins cell c xyz wy' wz') -> fst e = fst e' ->
+Lemma the_bins_fst_inj fl cell c xyz wy wz wy' wz' e e' :
+  In e (the_bins fl cell c xyz wy wz) -> In e' (the_bins fl cell c xyz wy' wz') -> fst e = fst e' ->
   e = e' /\ wy = wy' /\ wz = wz'.
 Proof.
   intros H H' Hf. apply in_the_bins in H, H'. destruct H as (_ & H2 & H3), H' as (_ & H2' & H3').
@@ -383,10 +384,10 @@ Proof.
   split; [destruct e, e'; cbn in *; now subst|]. rewrite E in H3. rewrite H3 in H3'. now inversion H3'.
 Qed.
 
-Lemma NoDup_the_bins cell c xyz wy wz : NoDup (map fst (the_bins cell c xyz wy wz)).
+Lemma NoDup_the_bins fl cell c xyz wy wz : NoDup (map fst (the_bins fl cell c xyz wy wz)).
 Proof.
   apply NoDup_map_inj.
-  - intros e e' He He' Hf. now destruct (the_bins_fst_inj cell c xyz wy wz wy wz e e' He He' Hf).
+  - intros e e' He He' Hf. now destruct (the_bins_fst_inj fl cell c xyz wy wz wy wz e e' He He' Hf).
   - unfold the_bins, bin_atoms. apply List.NoDup_filter.
     apply (NoDup_map_inv fst). rewrite atoms_of_fst. apply seq_NoDup.
 Qed.
@@ -394,20 +395,20 @@ Qed.
 Lemma piece_incl g c bins i p z y e : In e (piece g c bins i p z y) -> In e (bins (wy_of g y) (wz_of g z)).
 Proof. intros H. now apply in_piece in H. Qed.
 
-Lemma NoDup_piece cell c xyz i p z y :
-  NoDup (map fst (piece (the_grid cell c xyz) c (the_bins cell c xyz) i p z y)).
+Lemma NoDup_piece fl cell c xyz i p z y :
+  NoDup (map fst (piece (the_grid fl cell c xyz) c (the_bins fl cell c xyz) i p z y)).
 Proof.
   unfold piece. cbv zeta. destruct (r_skip _); [constructor|].
   apply NoDup_map_inj.
   - intros e e' He He' Hf. apply filter_In in He, He'.
-    now destruct (the_bins_fst_inj cell c xyz _ _ _ _ e e' (proj1 He) (proj1 He') Hf).
+    now destruct (the_bins_fst_inj fl cell c xyz _ _ _ _ e e' (proj1 He) (proj1 He') Hf).
   - apply List.NoDup_filter. apply (NoDup_map_inv fst). apply NoDup_the_bins.
 Qed.
 
-Lemma half_list_nodup cell c xyz i p :
-  NoDup (half_list (the_grid cell c xyz) c (the_bins cell c xyz) i p).
+Lemma half_list_nodup fl cell c xyz i p :
+  NoDup (half_list (the_grid fl cell c xyz) c (the_bins fl cell c xyz) i p).
 Proof.
-  set (g := the_grid cell c xyz).
+  set (g := the_grid fl cell c xyz).
   assert (Hg : grid_pos g) by apply make_grid_pos.
   rewrite half_list_pieces. apply NoDup_flat_map.
   - apply NoDup_zwindow.
@@ -417,14 +418,14 @@ Proof.
     + intros y y' b Hy Hy' Hb Hb'. apply in_map_iff in Hb, Hb'.
       destruct Hb as (e & He & Hin), Hb' as (e' & He' & Hin').
       apply piece_incl in Hin, Hin'.
-      destruct (the_bins_fst_inj cell c xyz _ _ _ _ e e' Hin Hin' ltac:(congruence)) as (_ & Hwy & _).
+      destruct (the_bins_fst_inj fl cell c xyz _ _ _ _ e e' Hin Hin' ltac:(congruence)) as (_ & Hwy & _).
       now apply (wy_of_inj g c (fst (vox_index g p)) z).
   - intros z z' b Hz Hz' Hb Hb'. apply in_flat_map in Hb, Hb'.
     destruct Hb as (y & Hy & Hb), Hb' as (y' & Hy' & Hb').
     apply in_map_iff in Hb, Hb'.
     destruct Hb as (e & He & Hin), Hb' as (e' & He' & Hin').
     apply piece_incl in Hin, Hin'.
-    destruct (the_bins_fst_inj cell c xyz _ _ _ _ e e' Hin Hin' ltac:(congruence)) as (_ & _ & Hwz).
+    destruct (the_bins_fst_inj fl cell c xyz _ _ _ _ e e' Hin Hin' ltac:(congruence)) as (_ & _ & Hwz).
     now apply (wz_of_inj g c (snd (vox_index g p))).
 Qed.
 
@@ -432,7 +433,7 @@ Qed.
 Definition half_ok (H : list (list nat)) : Prop :=
   (forall i j, In j (nth i H []) -> (j < i)%nat) /\ (forall i, NoDup (nth i H [])).
 
-Lemma nlist_half_ok cell c xyz : half_ok (nlist_half cell c xyz).
+Lemma nlist_half_ok fl cell c xyz : half_ok (nlist_half_gen fl cell c xyz).
 Proof.
   split.
   - intros i j H. now apply nlist_half_sound in H.
